@@ -108,8 +108,13 @@ func (iloc *itemLoc) Copy(src *itemLoc) {
 	}
 	// NOTE: This trick only works because of the global lock. No reason to lock
 	// src independently of i.
+	// Without that lock the item must be read before the location: a
+	// concurrent Flush may persist the item (setting the location) and a
+	// reader's visit may then evict it; an item seen missing is only ever one
+	// whose location is already there to be copied.
+	item := src.item
 	iloc.loc = src.loc
-	iloc.item = src.item
+	iloc.item = item
 }
 
 const itemLocHdrLength int = 4 + keyPSize + 4 + 4
